@@ -130,6 +130,22 @@ def generate(tier, seed, work, stats):
             ren = lambda x: "Gamma" if x == "A" else x
             extra.append(dict(c, prods=[[ren(h), ha, [ren(x) for x in b], ba] for h, ha, b, ba in c["prods"]], gamma=True,
                               family=c["family"] + "+variable-named-Gamma"))
+    # two features and two agreement variables: ambiguous readings that differ only in which features share a value
+    N = ("-", "-")
+    tmpl2 = [["S", N, ["A", "B"], [("x", "y"), ("x", "y")]], ["A", ("x", "x"), ["X"], [N]], ["A", ("x", "y"), ["Y"], [N]],
+             ["X", N, ["a"], ["-"]], ["Y", N, ["a"], ["-"]], ["B", ("p", "q"), ["b"], ["-"]], ["B", ("p", "p"), ["a"], ["-"]]]
+    for perm in itertools.permutations(("A", "B", "X", "Y")):
+        m = dict(zip(("A", "B", "X", "Y"), perm))
+        extra.append(dict(kind="fcfg", two=True, family="directed-two-features",
+                          prods=[[m.get(h, h), list(ha), [m.get(x, x) for x in b], [list(a) if not isinstance(a, str) else ["-", "-"] for a in ba]]
+                                 for h, ha, b, ba in tmpl2]))
+    vals = ["-", "-", "p", "q", "x", "x", "y"]
+    for prods in c08.random_grammars(500 if tier == "quick" else 6000, seed + 24, maxp=6, maxb=2):
+        prods = [p for p in prods if all(x in ("S", "A", "B", "a", "b") for x in [p[0]] + p[1])]
+        if prods and prods[0][0] == "S":
+            extra.append(dict(kind="fcfg", two=True, family="random-two-features",
+                              prods=[[h, [rnd.choice(vals), rnd.choice(vals)], b,
+                                      [[rnd.choice(vals), rnd.choice(vals)] if y[0].isupper() else ["-", "-"] for y in b]] for h, b in prods]))
     return cases + extra
 
 
@@ -225,6 +241,27 @@ def fcfg_text(prods, alternatives):
     return "\n".join("%s -> %s" % (lines[k][0], " | ".join(lines[k][1])) for k in order)
 
 
+def build_fcfg2(prods):
+    """Two features n, m; an annotation is a pair of "-" | constant | "x" | "y" (x, y: variables shared in the production)."""
+    from pyformlang.cfg import Variable, Terminal
+    from pyformlang.fcfg import FCFG, FeatureProduction, FeatureStructure
+    plist = []
+    for h, ha, body, banns in prods:
+        shared = {"x": FeatureStructure(), "y": FeatureStructure()}
+
+        def ann(a):
+            fs = FeatureStructure()
+            for name, v in zip(("n", "m"), a):
+                if v in shared:
+                    fs.add_content(name, shared[v])
+                elif v != "-":
+                    fs.add_content(name, FeatureStructure(v))
+            return fs
+        b = [Variable(x) if x[0].isupper() else Terminal(x) for x in body]
+        plist.append(FeatureProduction(Variable(h), b, ann(ha), [ann(a) for a in banns]))
+    return FCFG(start_symbol=Variable("S"), productions=set(plist))
+
+
 def build_fcfg(prods, nested=False, builder="ctor"):
     if builder != "ctor":
         from pyformlang.fcfg import FCFG
@@ -275,6 +312,18 @@ def replay(case):
         evs.append(ev)
         return evs
     prods = case["prods"]
+    if case.get("two"):
+        words = [w for n in range(4) for w in itertools.product(["a", "b"], repeat=n)]
+        ev = {"op": "fcfg_contains2", "prods": prods, "vars": ["S", "A", "B", "X", "Y"], "terms": ["a", "b"], "start": "S",
+              "dom": ["p", "q"], "L": 3, "words": [list(w) for w in words], "acc": []}
+        for w in words:
+            r = guard.call(build_fcfg2(prods).contains, list(w), timeout=3.0)
+            if r[0] != "ok":
+                ev["exc"] = (r[1] if r[0] == "exc" else "Timeout") + " on " + "".join(w)
+                break
+            if r[1]:
+                ev["acc"].append(list(w))
+        return [ev]
     words = []
     for n in range(4):
         words.extend(itertools.product(["a", "b"], repeat=n))
